@@ -25,7 +25,9 @@ def generate(ctx):
         d = {"kind": kind, "dt": rng.choice([1.0, 0.5]), "B": rng.randint(1, 3), "seed": rng.randrange(1 << 30),
              "T": rng.randint(6, 10), "neuron": rng.choice(fac.NEURONS), "neuron2": rng.choice(fac.NEURONS),
              "syn": rng.choice(fac.SYNAPSES), "delay": rng.choice([None, None, 2]), "bias": rng.random() < 0.4,
-             "capture": rng.random() < 0.5, "p": rng.choice([0.3, 0.6, 0.9]), "replay": 5}
+             "capture": rng.random() < 0.5, "p": rng.choice([0.3, 0.6, 0.9]), "replay": 5,
+             # component names other than the defaults, and keyword arguments routed to the neurons by name
+             "names": (i // 3) % 4 in (1, 2), "nkw": (i // 3) % 4 in (1, 3)}
         if kind == "serial":
             d["conn"] = rng.choice(fac.CONNECTIONS)
             d["transform"] = rng.choice([None, "double", "offset_kw"])
@@ -115,11 +117,17 @@ class _Parts:
                         break
 
 
+_RNAMES = {"feedfwd_connection": "ff", "lateral_connection": "lat", "feedback_connection": "fb",
+           "feedfwd_neuron": "exc", "feedback_neuron": "inh"}
+_NKW = {"refrac_lock": False}
+
+
 def _layer(desc, parts):
     kind = desc["kind"]
     if kind == "serial":
         tf = {None: None, "double": _double, "offset_kw": _offset_kw}[desc["transform"]]
-        return neural.Serial(parts.conns["serial"], parts.neurons["serial"], transform=tf)
+        nm = dict(connection_name="proj", neuron_name="neur") if desc.get("names") else {}
+        return neural.Serial(parts.conns["serial"], parts.neurons["serial"], transform=tf, **nm)
     if kind == "biclique":
         cs = [(k, c, _double) if desc["post"] and i == 0 else (k, c) for i, (k, c) in enumerate(parts.conns.items())]
         ns = [(k, n, _double) if desc["pre"] and j == 0 else (k, n) for j, (k, n) in enumerate(parts.neurons.items())]
@@ -130,7 +138,8 @@ def _layer(desc, parts):
         kw = dict(feedfwd_out_transform=_double, feedback_out_transform=lambda x: x * 0.5, lateral_out_transform=_double)
     return neural.RecurrentSerial(parts.conns["feedfwd"], parts.conns["lateral"], parts.conns["feedback"],
                                   parts.neurons["feedfwd"], parts.neurons["feedback"],
-                                  trainable_feedback=desc["trainable_feedback"], **kw)
+                                  trainable_feedback=desc["trainable_feedback"], **kw,
+                                  **({f"{k}_name": v for k, v in _RNAMES.items()} if desc.get("names") else {}))
 
 
 def _inputs(desc, parts, g):
@@ -144,16 +153,25 @@ def _inputs(desc, parts, g):
 def _step_layer(desc, layer, x):
     """-> (outputs dict name->tensor, intermediates dict or None)"""
     kind, cap = desc["kind"], desc["capture"]
+    nkw = desc.get("nkw")
     if kind == "serial":
         kw = {"offset": 1.5} if desc["transform"] == "offset_kw" else {}
+        if nkw:
+            kw["neuron_kwargs"] = dict(_NKW)
         r = layer(*x, capture_intermediate=cap, **kw)
         return ({"serial": r[0]}, {"serial": r[1]}) if cap else ({"serial": r}, None)
     if kind == "biclique":
-        r = layer(x, capture_intermediate=cap)
+        kw = {"neuron_kwargs": {"n0": dict(_NKW)}} if nkw else {}
+        r = layer(x, capture_intermediate=cap, **kw)
         return (r[0], r[1]) if cap else (r, None)
-    r = layer(*x, capture_intermediate=cap)
+    kw = {"feedback_neuron_kwargs": dict(_NKW)} if nkw else {}
+    r = layer(*x, capture_intermediate=cap, **kw)
     if cap:
-        return {"feedfwd": r[0][0], "feedback": r[0][1]}, r[1]
+        inter = r[1]
+        if desc.get("names"):
+            back = {"ff": "feedfwd", "lat": "lateral", "fb": "feedback"}
+            inter = {back.get(k, k): v for k, v in inter.items()}
+        return {"feedfwd": r[0][0], "feedback": r[0][1]}, inter
     return {"feedfwd": r[0], "feedback": r[1]}, None
 
 
@@ -174,14 +192,14 @@ class _Hand:
                 v = c * 2.0
             elif d["transform"] == "offset_kw":
                 v = c + 1.5
-            return {"serial": p.neurons["serial"](v)}, {"serial": c}
+            return {"serial": p.neurons["serial"](v, **(_NKW if d.get("nkw") else {}))}, {"serial": c}
         if kind == "biclique":
             inter = {k: p.conns[k](*x[k]) for k in p.conns}
             vals = [(inter[k] * 2.0 if d["post"] and i == 0 else inter[k]) for i, k in enumerate(p.conns)]
             comb = _ref_combine(d["combine"], vals)
             outs = {}
             for j, (k, n) in enumerate(p.neurons.items()):
-                outs[k] = n(comb * 2.0 if d["pre"] and j == 0 else comb)
+                outs[k] = n(comb * 2.0 if d["pre"] and j == 0 else comb, **(_NKW if d.get("nkw") and k == "n0" else {}))
             return outs, inter
         ffn, fbn = p.neurons["feedfwd"], p.neurons["feedback"]
         if self.fb_spikes is None:
@@ -194,7 +212,7 @@ class _Hand:
             drive = cff + cfb
         sff = ffn(drive)
         clat = p.conns["lateral"](sff)
-        sfb = fbn(clat * 2.0 if d["transforms"] else clat)
+        sfb = fbn(clat * 2.0 if d["transforms"] else clat, **(_NKW if d.get("nkw") else {}))
         self.fb_spikes = sfb
         return {"feedfwd": sff, "feedback": sfb}, {"feedfwd": cff, "feedback": cfb, "lateral": clat}
 
@@ -275,6 +293,14 @@ def run_case(ctx, desc):
             for k in einter:
                 if k not in inter or not _same(inter[k], einter[k]):
                     return ctx.violation(f"{tag}.capture_intermediate", f"step {t}: intermediate '{k}' differs", rdesc)
+        # the components the layer drove are in the state the documented wiring leaves them in (voltages, refractory
+        # times, synaptic currents): keyword arguments routed to a component show here before they show in a spike
+        sl, sh = _state(pL), _state(pH)
+        for k in sh:
+            if not _same(sl[k], sh[k]):
+                return ctx.violation(f"{tag}.component_state_ne_documented_wiring",
+                                     f"step {t}: {k} differs from the hand-composed wiring", rdesc)
+        ctx.count("component_states_compared")
     # ---------------- (b) clear() at every position --------------------------------------------------------------------
     for kpos in range(0, desc["T"] + 1):
         rdesc = {**desc, "clear_at": kpos}
